@@ -70,7 +70,7 @@ type result3 struct {
 
 func pow2(k int) bool { return k > 0 && k&(k-1) == 0 }
 
-func runOp3(c *hlib.Ctx, st *state3, m *model3d.Mesh) result3 {
+func runOp3(c *hlib.Ctx, st *state3, m *model3d.Mesh, forced int) result3 {
 	nf := len(st.soup)
 	bits := 60
 	if st.exact {
@@ -100,7 +100,11 @@ func runOp3(c *hlib.Ctx, st *state3, m *model3d.Mesh) result3 {
 		}
 		return keep, ids
 	}
-	switch op := c.Rng.Intn(16); op {
+	op := c.Rng.Intn(16)
+	if forced >= 0 {
+		op = forced
+	}
+	switch op {
 	case 0, 1: // Decimator.Decimate / DecimateSimple
 		r.kind = "decimate3"
 		keep, ids := pickKeep()
